@@ -55,12 +55,15 @@ Definition kb_oracle (input b : json) : option string :=
       | None => Some "case without a digest algorithm"
       | Some alg =>
           let expect_hash := match lookup3 (halg_name alg) prefix (jlist (jget "H" kb)) with Some (JStr d) => d | _ => "!missing" end in
-          if negb (json_eqb hdr (JObj [("alg", jget "alg" want); ("typ", JStr "kb+jwt")])) then Some "KB-JWT header is not {alg, typ: kb+jwt}"
+          (* the property fixes two members of the header, the algorithm supplied and the type; it forbids no other member *)
+          if negb (json_eqb (jget "alg" hdr) (jget "alg" want) && json_eqb (jget "typ" hdr) (JStr "kb+jwt")) then Some "KB-JWT header does not name the supplied algorithm and the type kb+jwt"
           else if negb (json_eqb (jget "aud" cl) (jget "aud" want)) then Some "KB-JWT aud differs from the supplied audience"
           else if negb (json_eqb (jget "sd_hash" cl) (JStr expect_hash)) then Some "sd_hash is not the hash of the presentation up to its last '~' under _sd_alg"
           else if negb (jbool (jget "sig_ok" kb)) then Some "KB-JWT signature does not verify under the bound key (independent check)"
           else match jget "nonce" cl with
-               | JStr n => if negb (is_alnum32 32 n) then Some "nonce is not 32 alphanumerics"
+               (* "a fresh unpredictable nonce": at least 16 characters here (the library draws 32 alphanumerics; how long and
+                  from which alphabet is not the property's business), pairwise distinct across builds (case_present) *)
+               | JStr n => if Nat.ltb (String.length n) 16 then Some "the nonce is shorter than 16 characters"
                            else match Z_of_json (jget "iat" cl), Z_of_json (jget "t0" b), Z_of_json (jget "t1" b) with
                                 | Some i, Some t0, Some t1 => if ((t0 <=? i) && (i <=? t1))%Z then None else Some "iat is not the current time"
                                 | _, _, _ => Some "iat missing" end
